@@ -17,20 +17,26 @@ import (
 // the transaction through the ante/post wrappers).
 
 type vestEntry struct {
+	Denom          string
 	Total, Claimed sdkmath.Int
 	Start, N       int64
 }
 
+type vestInfo struct {
+	vestingDenom string
+	numBlock     int64
+	factor       sdkmath.Int
+	maxVest      int64
+}
+
 type vestSnap struct {
-	entries  []vestEntry
-	eden     sdkmath.Int // claimed (liquid) Eden in the commitment ledger
-	elys     sdkmath.Int // bank balance
-	supply   sdkmath.Int // uelys supply
-	height   int64
-	numBlock int64
-	factor   sdkmath.Int
-	maxVest  int64
-	vestNow  bool
+	entries []vestEntry
+	eden    sdkmath.Int            // claimed (liquid) Eden in the commitment ledger
+	bal     map[string]sdkmath.Int // bank balances of the owner (all denoms)
+	supply  map[string]sdkmath.Int // supply of every denom
+	height  int64
+	infos   map[string]vestInfo // by base denom
+	vestNow bool
 }
 
 type MonC14 struct {
@@ -68,17 +74,21 @@ func (m *MonC14) snap(ctx sdk.Context, owner string) *vestSnap {
 	app := m.sim.N0.App
 	addr := sdk.MustAccAddressFromBech32(owner)
 	cm := app.CommitmentKeeper.GetCommitments(ctx, addr)
-	sn := &vestSnap{eden: cm.GetClaimedForDenom(DenomEDEN), elys: app.BankKeeper.GetBalance(ctx, addr, DenomELYS).Amount,
-		supply: app.BankKeeper.GetSupply(ctx, DenomELYS).Amount, height: ctx.BlockHeight()}
+	sn := &vestSnap{eden: cm.GetClaimedForDenom(DenomEDEN), bal: map[string]sdkmath.Int{}, supply: map[string]sdkmath.Int{}, height: ctx.BlockHeight(), infos: map[string]vestInfo{}}
+	for _, c := range app.BankKeeper.GetAllBalances(ctx, addr) {
+		sn.bal[c.Denom] = c.Amount
+	}
+	app.BankKeeper.IterateTotalSupply(ctx, func(c sdk.Coin) bool {
+		sn.supply[c.Denom] = c.Amount
+		return false
+	})
 	for _, v := range cm.VestingTokens {
-		sn.entries = append(sn.entries, vestEntry{Total: v.TotalAmount, Claimed: v.ClaimedAmount, Start: v.StartBlock, N: v.NumBlocks})
+		sn.entries = append(sn.entries, vestEntry{Denom: v.Denom, Total: v.TotalAmount, Claimed: v.ClaimedAmount, Start: v.StartBlock, N: v.NumBlocks})
 	}
 	params := app.CommitmentKeeper.GetParams(ctx)
 	sn.vestNow = params.EnableVestNow
 	for _, vi := range params.VestingInfos {
-		if vi.BaseDenom == DenomEDEN {
-			sn.numBlock, sn.factor, sn.maxVest = vi.NumBlocks, vi.VestNowFactor, vi.NumMaxVestings
-		}
+		sn.infos[vi.BaseDenom] = vestInfo{vestingDenom: vi.VestingDenom, numBlock: vi.NumBlocks, factor: vi.VestNowFactor, maxVest: vi.NumMaxVestings}
 	}
 	return sn
 }
@@ -132,87 +142,117 @@ func (m *MonC14) PostTx(ctx sdk.Context, t *ExecTx) {
 	post := m.snap(ctx, owner)
 	culprit := txStep(t)
 	s.Stats.Probe("vesting_tx_checked")
-	remaining := func(es []vestEntry) sdkmath.Int {
+	remaining := func(es []vestEntry, denom string) sdkmath.Int {
 		r := sdkmath.ZeroInt()
 		for _, e := range es {
-			r = r.Add(e.Total.Sub(e.Claimed))
+			if e.Denom == denom {
+				r = r.Add(e.Total.Sub(e.Claimed))
+			}
 		}
 		return r
 	}
+	balDelta := func(d string) sdkmath.Int { return zeroIfNil(post.bal, d).Sub(zeroIfNil(pre.bal, d)) }
+	supDelta := func(d string) sdkmath.Int { return zeroIfNil(post.supply, d).Sub(zeroIfNil(pre.supply, d)) }
+	touched := map[string]bool{} // vesting denoms whose conservation is re-checked below
 	switch x := msg.(type) {
 	case *commitmenttypes.MsgVest, *commitmenttypes.MsgVestLiquid:
 		var amt sdkmath.Int
-		if v, ok := x.(*commitmenttypes.MsgVest); ok {
-			amt = v.Amount
+		var base string
+		_, isVest := x.(*commitmenttypes.MsgVest)
+		if isVest {
+			amt, base = x.(*commitmenttypes.MsgVest).Amount, x.(*commitmenttypes.MsgVest).Denom
 		} else {
-			amt = x.(*commitmenttypes.MsgVestLiquid).Amount
+			amt, base = x.(*commitmenttypes.MsgVestLiquid).Amount, x.(*commitmenttypes.MsgVestLiquid).Denom
 		}
+		info := pre.infos[base]
 		if len(post.entries) != len(pre.entries)+1 {
-			s.Violate("C14", "vest_entry", culprit, "%s: vest of %s created %d entries", owner, amt, len(post.entries)-len(pre.entries))
+			s.Violate("C14", "vest_entry", culprit, "%s: vest of %s%s created %d entries", owner, amt, base, len(post.entries)-len(pre.entries))
 			return
 		}
-		if int64(len(post.entries)) > pre.maxVest {
-			s.Violate("C14", "max_vestings", culprit, "%s: %d concurrent vestings exceed the maximum %d", owner, len(post.entries), pre.maxVest)
+		if int64(len(post.entries)) > info.maxVest {
+			s.Violate("C14", "max_vestings", culprit, "%s: %d concurrent vestings exceed the maximum %d", owner, len(post.entries), info.maxVest)
 		}
 		ne := post.entries[len(post.entries)-1]
-		if !ne.Total.Equal(amt) || !ne.Claimed.IsZero() || ne.Start != pre.height || ne.N != pre.numBlock {
-			s.Violate("C14", "vest_entry", culprit, "%s: new entry total=%s claimed=%s start=%d n=%d, expected total=%s claimed=0 start=%d n=%d", owner, ne.Total, ne.Claimed, ne.Start, ne.N, amt, pre.height, pre.numBlock)
+		if ne.Denom != info.vestingDenom || !ne.Total.Equal(amt) || !ne.Claimed.IsZero() || ne.Start != pre.height || ne.N != info.numBlock {
+			s.Violate("C14", "vest_entry", culprit, "%s: new entry %s, expected {denom=%s total=%s claimed=0 start=%d n=%d}", owner, fmtEntries([]vestEntry{ne}), info.vestingDenom, amt, pre.height, info.numBlock)
 		}
-		if _, isVest := x.(*commitmenttypes.MsgVest); isVest && !pre.eden.Sub(post.eden).Equal(amt) {
+		if isVest && !pre.eden.Sub(post.eden).Equal(amt) {
 			s.Violate("C14", "vest_eden_debit", culprit, "%s: vest of %s Eden debited %s liquid Eden", owner, amt, pre.eden.Sub(post.eden))
 		}
-		m.in[owner] = get(m.in, owner).Add(amt)
+		if !isVest {
+			if d := balDelta(base).Neg(); !d.Equal(amt) {
+				s.Violate("C14", "vest_liquid_debit", culprit, "%s: vest-liquid of %s%s debited %s from the wallet", owner, amt, base, d)
+			}
+			s.Stats.Probe("vest_liquid_ok")
+		}
+		k := owner + "|" + info.vestingDenom
+		m.in[k] = get(m.in, k).Add(amt)
+		touched[info.vestingDenom] = true
 	case *commitmenttypes.MsgClaimVesting:
-		expected := sdkmath.ZeroInt()
+		expected := map[string]sdkmath.Int{}
 		var want []vestEntry
 		for _, e := range pre.entries {
 			rel := releasable(e, pre.height)
 			if rel.LT(e.Claimed) {
 				rel = e.Claimed // cumulative release never decreases
 			}
-			expected = expected.Add(rel.Sub(e.Claimed))
+			expected[e.Denom] = zeroIfNil(expected, e.Denom).Add(rel.Sub(e.Claimed))
 			ne := e
 			ne.Claimed = rel
 			if !ne.Claimed.Equal(ne.Total) {
 				want = append(want, ne)
 			}
-			if pre.height-e.Start >= e.N && !rel.Equal(e.Total) {
-				s.Harness("C14 model: elapsed schedule does not release total")
+			touched[e.Denom] = true
+		}
+		for d := range touched {
+			got := balDelta(d)
+			exp := zeroIfNil(expected, d)
+			if !got.Equal(exp) {
+				s.Violate("C14", "claim_amount", culprit, "%s: claim at height %d released %s %s, linear schedule says %s (entries before: %s)", owner, pre.height, got, d, exp, fmtEntries(pre.entries))
 			}
-		}
-		got := post.elys.Sub(pre.elys)
-		if !got.Equal(expected) {
-			s.Violate("C14", "claim_amount", culprit, "%s: claim at height %d released %s uelys, linear schedule says %s (entries before: %s)", owner, pre.height, got, expected, fmtEntries(pre.entries))
-		}
-		if !post.supply.Sub(pre.supply).Equal(got) {
-			s.Violate("C14", "claim_mint", culprit, "%s: claim paid %s uelys but supply changed by %s", owner, got, post.supply.Sub(pre.supply))
+			wantSup := sdkmath.ZeroInt()
+			if d == DenomELYS {
+				wantSup = got // released ELYS is minted; other assets are paid out of the custody they were deposited into
+			}
+			if !supDelta(d).Equal(wantSup) {
+				s.Violate("C14", "claim_mint", culprit, "%s: claim paid %s %s but the supply of %s changed by %s (expected %s)", owner, got, d, d, supDelta(d), wantSup)
+			}
+			k := owner + "|" + d
+			m.out[k] = get(m.out, k).Add(got)
+			if exp.IsPositive() {
+				s.Stats.Probe("vesting_claim_released")
+			}
 		}
 		if fmtEntries(want) != fmtEntries(post.entries) {
 			s.Violate("C14", "claim_entries", culprit, "%s: entries after claim %s, expected %s", owner, fmtEntries(post.entries), fmtEntries(want))
 		}
-		m.out[owner] = get(m.out, owner).Add(got)
-		if expected.IsPositive() {
-			s.Stats.Probe("vesting_claim_released")
+		if len(touched) > 1 {
+			s.Stats.Probe("vesting_claim_multi_denom")
 		}
 	case *commitmenttypes.MsgCancelVest:
 		if !post.eden.Sub(pre.eden).Equal(x.Amount) {
 			s.Violate("C14", "cancel_eden_credit", culprit, "%s: cancel of %s returned %s Eden", owner, x.Amount, post.eden.Sub(pre.eden))
 		}
-		if d := remaining(pre.entries).Sub(remaining(post.entries)); !d.Equal(x.Amount) {
+		if d := remaining(pre.entries, DenomELYS).Sub(remaining(post.entries, DenomELYS)); !d.Equal(x.Amount) {
 			s.Violate("C14", "cancel_unreleased", culprit, "%s: cancel of %s reduced the not-yet-released amount by %s (before %s, after %s)", owner, x.Amount, d, fmtEntries(pre.entries), fmtEntries(post.entries))
 		}
-		if !post.elys.Equal(pre.elys) {
-			s.Violate("C14", "cancel_pays_elys", culprit, "%s: cancel changed the uelys balance by %s", owner, post.elys.Sub(pre.elys))
+		if !balDelta(DenomELYS).IsZero() {
+			s.Violate("C14", "cancel_pays_elys", culprit, "%s: cancel changed the uelys balance by %s", owner, balDelta(DenomELYS))
 		}
-		m.back[owner] = get(m.back, owner).Add(x.Amount)
+		k := owner + "|" + DenomELYS
+		m.back[k] = get(m.back, k).Add(x.Amount)
+		touched[DenomELYS] = true
 		s.Stats.Probe("vesting_cancel_ok")
 	case *commitmenttypes.MsgVestNow:
-		want := x.Amount.Quo(pre.factor)
-		if got := post.elys.Sub(pre.elys); !got.Equal(want) {
-			s.Violate("C14", "vest_now_amount", culprit, "%s: vest-now of %s paid %s uelys, expected amount/factor = %s/%s = %s", owner, x.Amount, got, x.Amount, pre.factor, want)
+		info := pre.infos[x.Denom]
+		want := x.Amount.Quo(info.factor)
+		if got := balDelta(info.vestingDenom); !got.Equal(want) {
+			s.Violate("C14", "vest_now_amount", culprit, "%s: vest-now of %s paid %s %s, expected amount/factor = %s/%s = %s", owner, x.Amount, got, info.vestingDenom, x.Amount, info.factor, want)
 		}
-		if d := pre.eden.Sub(post.eden); !d.Equal(x.Amount) {
-			s.Violate("C14", "vest_now_eden_debit", culprit, "%s: vest-now of %s debited %s Eden", owner, x.Amount, d)
+		if x.Denom == DenomEDEN {
+			if d := pre.eden.Sub(post.eden); !d.Equal(x.Amount) {
+				s.Violate("C14", "vest_now_eden_debit", culprit, "%s: vest-now of %s debited %s Eden", owner, x.Amount, d)
+			}
 		}
 		s.Stats.Probe("vest_now_ok")
 	}
@@ -222,12 +262,16 @@ func (m *MonC14) PostTx(ctx sdk.Context, t *ExecTx) {
 			s.Violate("C14", "claimed_gt_total", culprit, "%s: entry released %s of total %s", owner, e.Claimed, e.Total)
 		}
 	}
-	// conservation: Eden put into vesting == released + returned + still scheduled
-	if _, tracked := m.in[owner]; tracked {
-		lhs := get(m.in, owner)
-		rhs := get(m.out, owner).Add(get(m.back, owner)).Add(remaining(post.entries))
+	// conservation per vesting denom: put into vesting == released + returned by cancel + still scheduled
+	for d := range touched {
+		k := owner + "|" + d
+		if _, tracked := m.in[k]; !tracked {
+			continue
+		}
+		lhs := get(m.in, k)
+		rhs := get(m.out, k).Add(get(m.back, k)).Add(remaining(post.entries, d))
 		if !lhs.Equal(rhs) {
-			s.Violate("C14", "conservation", culprit, "%s: Eden put into vesting %s != released %s + returned by cancel %s + still scheduled %s", owner, lhs, get(m.out, owner), get(m.back, owner), remaining(post.entries))
+			s.Violate("C14", "conservation", culprit, "%s %s: put into vesting %s != released %s + returned by cancel %s + still scheduled %s", owner, d, lhs, get(m.out, k), get(m.back, k), remaining(post.entries, d))
 		}
 	}
 }
@@ -239,7 +283,7 @@ func fmtEntries(es []vestEntry) string {
 		if i > 0 {
 			sb.WriteString(" ")
 		}
-		fmt.Fprintf(&sb, "{total=%s claimed=%s start=%d n=%d}", e.Total, e.Claimed, e.Start, e.N)
+		fmt.Fprintf(&sb, "{%s total=%s claimed=%s start=%d n=%d}", e.Denom, e.Total, e.Claimed, e.Start, e.N)
 	}
 	sb.WriteString("]")
 	return sb.String()
